@@ -23,6 +23,8 @@
 //	tie  K4 "stalled-subscriber": a consumer stops receiving (hold); its forwarder takes one change, the
 //	     next Set waits the full 5 s send deadline of Value.set on that listener and gives up; healthy
 //	     subscribers registered before / after it; resume. Each script in a child process of the harness.
+//	tie  K4 "waste-records" (waste.go): wastepb's PullWasteRecords handler (history + Value.Pull) opened on a
+//	     quiet model and while an AddWasteRecord is parked between its Set and its append.
 //	monitor "writer-log": the received stream vs the writer's own log (what its calls returned),
 //	     independent of the Lean model.
 package main
@@ -66,6 +68,7 @@ func main() {
 		tieR:  res.Tie("subscribe-during-write", "K4", "a subscriber opens WHILE one write is in flight, steered through the yield points: (a) subscriber parked at {value,coll}.onUpdate.beforeListen (between its snapshot and its bus registration) while the write runs - compared: whether the write is blocked on the resource lock (decided from the goroutine's wait reason) or finishes, the seed, every delivery; (b) write parked at value.set.beforeSend / coll.update.beforeSend (committed, not published) while the subscriber opens. ALL (initial contents, prefix write, write in flight) over the small alphabet, each followed by three follow-up writes, x both kinds x {plain, updates-only, read mask} x equivalence {none, equal}, Collection and Value; (c) write parked inside Bus.Send right after its snapshot of the listeners (bus.send.afterSnapshot) while the subscriber opens, the snapshot holding {no, a cancelled, a cancelled and a live, a live and a cancelled} listener: the new subscriber is seeded with the write, is not served by that Send, survives its garbage collection and receives every follow-up write; (d) a Delete parked right after its first read (coll.delete.afterRead) while another write of the same or another id runs to completion: ALL (initial contents, prefix write, Delete options {none, allow-missing, expected value, expected check}, overtaking write) - compared: both answers and every delivery (the REMOVE must carry the item actually removed); the random K1 histories contain all four kinds of scenario too. distinct = distinct scripts"),
 		tieP:  res.Tie("pullid-scope", "K2", "ALL write histories up to the stated length over {add a, create-update a, masked update of a with write time, update of a to a message whose `a` is 0, delete a, add b} x every subscription point x a PullID(a) subscriber {plain, read mask} x resource equivalence {none, equal, sameA}: the item's seed value flagged seed and last-seed, other ids skipped, the changes of the id the equivalence does not relate forwarded as values, the stream ended by exactly the first delivered REMOVE (a REMOVE the equivalence relates to `no item` is suppressed by the inner Pull and the stream goes on); distinct = distinct scripts"),
 		tieH:  res.Tie("stalled-subscriber", "K4", "Collection: a backpressured Collection.Pull subscriber whose consumer stops receiving (hold): its forwarder takes one change, the next Update / Add / Delete (stallw) waits at that listener - there is no deadline - until the consumer receives again after 5.6 s; healthy subscribers registered before / after the held one (plain, read masks incl. nested, updates-only), the waiting write an update / a create / a delete; compared: the write's answer (no error), what the resumed subscriber was owed, everybody's delivery of the waiting write and of the writes after it. Value: a backpressured Value.Pull subscriber whose consumer stops receiving (hold) while the writer goes on: its forwarder takes one change and blocks, the next Set that announces a change waits the full 5 s of Value.set's send deadline on that listener and gives up - ALL listed layouts of healthy subscribers registered before / after the stalled one (plain, read mask, updates-only; with/without initial value; one or two held subscribers; hold before the first write or after one) x the write sequence (a Set the forwarder takes, a Set that finds it stalled, resume, further Sets). Each script runs in its own child process of the harness (the 5 s wait overlaps with the other families); compared: every answer (value and error of each Set, who was handed which event, what the resumed subscriber receives). distinct = distinct scripts"),
+		tieW:  res.Tie("waste-records", "K4", "a stream a trait handler COMPOSES from a record history and a Value.Pull - wastepb ModelServer.PullWasteRecords, opened through the real handler with a server stream of the harness - (a) on a quiet model and (b) while an AddWasteRecord is parked at value.set.beforeSend (its Set committed; neither its publication nor its append to the history done) or inside that Set's Bus.Send after its snapshot of the listeners (bus.send.afterSnapshot): ALL (number of records before {0,1,2,3,49,50,51} around the 50-record window, quiet / mid-add, read mask {none, id, area}, updates-only on/off, 1 or 2 records added afterwards); compared with the model's wasteStream (Waste.lean): every record the stream sent, in order; distinct = distinct scenarios"),
 		mon:   res.Monitor("writer-log", "the stream each subscriber received vs the writer's own log: seed = current contents sorted by id, flagged, last flagged last, stored change time; then exactly one event per successful write (none for failed writes or a no-op delete), id/kind/old/new from what the writer's calls returned, time = write time or a clock reading within the write, suppression iff the configured equivalence relates the compared pair"),
 	}
 	r := lib.NewRand(f.Seed)
@@ -92,6 +95,8 @@ func main() {
 		h.runScript(s, h.tieFor(s))
 	}
 	lap("random-histories")
+	h.wasteScope(f.Tier == "thorough")
+	lap("waste-records")
 	for _, c := range stalls {
 		code, err := c.wait()
 		if err != nil {
@@ -120,7 +125,7 @@ type harness struct {
 	cover                  *pairCover
 	drv                    *lib.Driver
 	tieC, tieV, tieS, tieR *lib.Tie
-	tieP, tieH             *lib.Tie
+	tieP, tieH, tieW       *lib.Tie
 	mon                    *lib.Monitor
 	ops                    int
 	skipped                int // scripts not run because the run was already failing on missing deliveries
@@ -825,7 +830,9 @@ func (w *writerLog) applyWrite(m *lib.Monitor, in map[string]any, op Op, o obs) 
 		delete(w.ref, id)
 	default:
 		id := w.icpt(op.ID)
-		if id == "" && op.has("gid") {
+		// an id is absent when the caller gave none (decided on the id as given, before the id interceptor:
+		// fix 929e9c0 in /repo) or when the interceptor maps it to the empty key
+		if (op.ID == "" || id == "") && op.has("gid") {
 			ids := splitList(o.ids)
 			if len(ids) != 1 {
 				return nil, evTime // the writer did not ask to hear the generated id: nothing to compare ids with
@@ -1475,6 +1482,9 @@ func replay(f lib.Flags) int {
 		lib.Fatal(err)
 	}
 	in, ok := rp.Input.(map[string]any)
+	if ok && in["waste"] != nil {
+		return replayWaste(in["waste"])
+	}
 	if !ok || in["script"] == nil {
 		fmt.Println("replay: no concrete input in file (", rp.Kind, rp.Broken, ")")
 		return 2
